@@ -97,8 +97,12 @@ def finalize_templates(module):
                         if isinstance(c, ast.Call) and isinstance(c.func, ast.Attribute) and c.func.attr == "add":
                             sets.append(dotted_name(c.func.value))
                 char_to_sets[ch] = sets
-        if isinstance(node, ast.For) and isinstance(node.iter, ast.Name):
-            sname = node.iter.id
+        it = node.iter if isinstance(node, ast.For) else None
+        if isinstance(it, ast.Call) and isinstance(it.func, ast.Name) and it.func.id in ("sorted", "list", "tuple", "set", "frozenset") \
+                and len(it.args) >= 1 and isinstance(it.args[0], ast.Name):
+            it = it.args[0]
+        if isinstance(node, ast.For) and isinstance(it, ast.Name):
+            sname = it.id
             for c in ast.walk(node):
                 if (
                     isinstance(c, ast.Call)
